@@ -79,3 +79,44 @@ def pdlc_many(jobs, workers=16):
             return e
     with ThreadPoolExecutor(workers) as ex:
         return list(ex.map(one, jobs))
+
+
+_driver = None
+
+
+def build_driver() -> str:
+    """the schema-dump driver linked against /repo's pdl-compiler (public API only)"""
+    global _driver
+    if _driver:
+        return _driver
+    import shutil
+    d = os.path.join(WORK, 'driver')
+    os.makedirs(os.path.join(d, 'src'), exist_ok=True)
+    with open(os.path.join(VERIF, 'driver', 'Cargo.toml.in')) as f:
+        toml = f.read().replace('@REPO@', REPO)
+    with open(os.path.join(d, 'Cargo.toml'), 'w') as f:
+        f.write(toml)
+    shutil.copy(os.path.join(REPO, 'Cargo.lock'), os.path.join(d, 'Cargo.lock'))
+    shutil.copy(os.path.join(VERIF, 'driver', 'src', 'main.rs'), os.path.join(d, 'src', 'main.rs'))
+    tdir = os.path.join(TARGET, 'repo')
+    t = time.time()
+    run(['cargo', 'build', '--offline', '--quiet', '--target-dir', tdir], cwd=d, timeout=1800)
+    _driver = os.path.join(tdir, 'debug', 'pdlsizes')
+    sys.stderr.write(f'[build] schema driver ready in {time.time() - t:.1f}s\n')
+    return _driver
+
+
+def schema_sizes(paths):
+    """run the driver on .pdl files; returns {path: decls json}"""
+    import json
+    exe = build_driver()
+    out = {}
+    for i in range(0, len(paths), 50):
+        p = subprocess.run([exe] + paths[i:i + 50], capture_output=True, text=True, timeout=300)
+        for line in p.stdout.splitlines():
+            if line.startswith('{'):
+                j = json.loads(line)
+                out[j['file']] = j
+        if p.returncode != 0 and not p.stdout:
+            raise BuildError('schema driver failed: ' + p.stderr[-1500:])
+    return out
